@@ -52,7 +52,17 @@ func (b Branch) Target(ctx context.Context, height int) (*big.Int, error) {
 	projected.Mul(work, big.NewInt(600))
 	projected.Div(projected, big.NewInt(int64(timeSpan)))
 
-	target := bitcoin.ConvertToWork(projected)
+	// Target = (2^256 - PW) / PW, as the network calculates it. Dividing 2^256 by PW + 1 instead
+	// rounds down to the next lower compact value when the result is exactly on a compact value,
+	// like when the difficulty is not changing.
+	target := &big.Int{}
+	if projected.Sign() == 0 {
+		target.Set(bitcoin.MaxWork)
+	} else {
+		target.Lsh(big.NewInt(1), 256)
+		target.Sub(target, projected)
+		target.Div(target, projected)
+	}
 
 	if target.Cmp(bitcoin.MaxWork) > 0 {
 		target.Set(bitcoin.MaxWork)
